@@ -64,7 +64,9 @@ def r12_handles(r, facts):
     for g, loc, t in facts.callers.get('io_uring::munmap', []):
         n += 1
         r.inst('munmap in %s' % g.path, g.where(loc))
-        r.require(g.path in allowed, 'munmap:%s' % g.path, 'the ring memory is unmapped outside the owning Drop impls / constructor error paths', g.where(loc))
+        # the constructors may unmap what they mapped themselves on their error paths (pairing is C18.R2), directly or in a clean-up closure
+        ctor = any(g.path == c or g.path.startswith(c + '::{closure') for c in ('io_uring::Shared::new', 'io_uring::cq::Completions::new'))
+        r.require(g.path in allowed or ctor, 'munmap:%s' % g.path, 'the ring memory is unmapped outside the owning Drop impls / constructor error paths', g.where(loc))
     for g, loc, t in facts.callers.get('libc::munmap', []):
         r.require(g.path == 'io_uring::munmap', 'libc-munmap:%s' % g.path, 'raw libc::munmap outside the io_uring::munmap wrapper', g.where(loc))
     r.require(n >= 4, 'munmap-sites', 'expected >= 4 munmap call sites (2 drops, 2 error paths), found %d' % n)
